@@ -522,3 +522,87 @@ func TestGovcReplay(t *testing.T) {
 		},
 	})
 }
+
+func init() {
+	harnesses = append(harnesses, &harness{
+		name: "dubbo-thrift truncated frame replay (valid frame cut 1..4 bytes short over a larger backing array)",
+		match: func(o *Obligation) bool {
+			return strings.Contains(o.Func, "dubbothrift.(thriftProtocol).Decode")
+		},
+		run: func(eng *Engine, o *Obligation) *ReplayOutcome {
+			src := `package dubbothrift
+
+import (
+	"context"
+	"fmt"
+	"testing"
+
+	"mosn.io/pkg/buffer"
+)
+
+// The refuted obligation says: decodeFrame is entered although fewer than 4+messageLen bytes are
+// buffered (messageLen <= n < messageLen+4). Replay: a valid 71-byte frame (from the package's own
+// test data) lying in a 71-byte array of which only the first 71-k bytes have "arrived".
+func TestGovcReplay(t *testing.T) {
+	full := []byte{0, 0, 0, 67, 218, 188, 0, 0, 0, 67, 0, 45, 1, 0, 0, 0, 24, 99, 111, 109, 46, 112, 107, 103, 46, 116, 101, 115, 116, 46, 84, 101, 115, 116, 83, 101, 114, 118, 105, 99, 101, 0, 0, 0, 0, 0, 0, 0, 1, 128, 1, 0, 1, 0, 0, 0, 10, 116, 101, 115, 116, 77, 101, 116, 104, 111, 100, 0, 0, 0, 1}
+	var bad []string
+	for k := 1; k <= 4; k++ {
+		backing := make([]byte, len(full))
+		copy(backing, full)
+		buf := buffer.NewIoBufferBytes(backing[:len(full)-k])
+		before := buf.Len()
+		frame, err := (thriftProtocol{}).Decode(context.Background(), buf)
+		if frame != nil || err != nil || buf.Len() != before {
+			bad = append(bad, fmt.Sprintf("frame cut %d byte(s) short: frame!=nil:%v err!=nil:%v consumed:%d", k, frame != nil, err != nil, before-buf.Len()))
+		}
+	}
+	if len(bad) > 0 {
+		fmt.Println("REPLAY-CONFIRMED incomplete frame is not answered with (nil,nil):", bad)
+	} else {
+		fmt.Println("REPLAY-NOT-REPRODUCED")
+	}
+}
+`
+			out, _ := runOverlayTest("pkg/protocol/xprotocol/dubbothrift", src, "^TestGovcReplay$")
+			return outcomeFromOutput(src, out)
+		},
+	})
+	harnesses = append(harnesses, &harness{
+		name: "tars impossible length prefix replay",
+		match: func(o *Obligation) bool {
+			return strings.Contains(o.Func, "tars.(tarsProtocol).Decode")
+		},
+		run: func(eng *Engine, o *Obligation) *ReplayOutcome {
+			src := `package tars
+
+import (
+	"context"
+	"fmt"
+	"testing"
+
+	"mosn.io/pkg/buffer"
+)
+
+// The refuted postcondition says: a length prefix that can never be satisfied (< 4 or > max) is
+// answered with "need more data" instead of an error, so the connection waits forever.
+func TestGovcReplay(t *testing.T) {
+	var bad []string
+	for _, prefix := range [][]byte{{0, 0, 0, 1}, {0, 0, 0, 0}, {0xff, 0xff, 0xff, 0xff}} {
+		in := append(append([]byte{}, prefix...), make([]byte, 64)...)
+		frame, err := (tarsProtocol{}).Decode(context.Background(), buffer.NewIoBufferBytes(in))
+		if frame == nil && err == nil {
+			bad = append(bad, fmt.Sprintf("length prefix %v with %d bytes buffered: (nil, nil)", prefix, len(in)))
+		}
+	}
+	if len(bad) > 0 {
+		fmt.Println("REPLAY-CONFIRMED", bad)
+	} else {
+		fmt.Println("REPLAY-NOT-REPRODUCED")
+	}
+}
+`
+			out, _ := runOverlayTest("pkg/protocol/xprotocol/tars", src, "^TestGovcReplay$")
+			return outcomeFromOutput(src, out)
+		},
+	})
+}
